@@ -429,16 +429,40 @@ class BuiltinMixin:
                 return [(st, args[1])]
             if name == "items":
                 return [(st, PyList([PyList([PyC(k), v], "tuple") for k, v in recv.items()], "list"))]
-        if isinstance(recv, PyList):
+        if name in ("append", "extend", "insert") and (isinstance(recv, PyList) or (isinstance(recv, Val) and recv.kind == "list")) \
+                and isinstance(node, ast.Call) and isinstance(node.func, ast.Attribute):
+            # list mutators: a pure update of the value plus a write-back to the place the list was read from
+            target = node.func.value
+            if isinstance(recv, PyList) and recv.kind == "list":
+                if name == "append":
+                    new = PyList(recv.items + [args[0]], "list")
+                elif name == "insert" and isinstance(args[0], PyC) and isinstance(args[0].obj, int):
+                    items = list(recv.items)
+                    items.insert(args[0].obj, args[1])
+                    new = PyList(items, "list")
+                else:
+                    ext = self.static_items(args[0]) if name == "extend" else None
+                    if ext is None:
+                        lr = self.lift(recv)
+                        return self.builtin_method(st, lr, name, args, kwargs, node)
+                    new = PyList(recv.items + ext, "list")
+                res = self.store_back(st, target, new, node)
+                return [(s_, r_[1] if r_ else PyC(None)) for s_, r_ in res]
+            lr = self.lift(recv)
+            self.frame_write(st, lr, lr.origin or ast.unparse(target), node)
+            sq = f"(lval {asV(lr)})"
             if name == "append":
-                recv.items.append(args[0])
-                return [(st, PyC(None))]
-            if name == "extend":
-                items = self.static_items(args[0])
-                if items is None:
-                    raise OutOfSubset("extend static list with symbolic sequence", node)
-                recv.items.extend(items)
-                return [(st, PyC(None))]
+                nt = f"(v_list (seq.++ {sq} (seq.unit {asV(self.lift(args[0]))})))"
+            elif name == "extend":
+                nt = f"(v_list (seq.++ {sq} (seqof {asV(self.lift(args[0]))})))"
+            else:
+                i = asI(self.lift(args[0]))
+                pos = f"(ite (< {i} 0) (ite (< (+ {i} (seq.len {sq})) 0) 0 (+ {i} (seq.len {sq}))) (ite (> {i} (seq.len {sq})) (seq.len {sq}) {i}))"
+                nt = f"(v_list (seq.++ (seq.extract {sq} 0 {pos}) (seq.unit {asV(self.lift(args[1]))}) (seq.extract {sq} {pos} (- (seq.len {sq}) {pos}))))"
+            new = Val(nt, kind="list", fresh=lr.fresh, origin=lr.origin)
+            res = self.store_back(st, target, new, node)
+            return [(s_, r_[1] if r_ else PyC(None)) for s_, r_ in res]
+        if isinstance(recv, PyList):
             recv = self.lift(recv)
         if isinstance(recv, PyC):
             recv = self.lift(recv)
